@@ -428,12 +428,29 @@ func (sb *Sandbox) Run(bin string, extraEnv []string, args ...string) *Result {
 	return r
 }
 
+// ageWorktree gives every working-tree file the same old modification time before a command
+// runs. The properties speak of bytes, never of timestamps; with the files older than anything
+// Goit itself has written, a shortcut of the kind "looks older than what I stored, so it is
+// unchanged" misfires in every execution instead of depending on how the sandbox happened to
+// be filled (the replay scripts do the same with touch).
+func (sb *Sandbox) ageWorktree(s *State) {
+	old := time.Unix(worktreeMtime, 0)
+	for p := range s.Files {
+		if strings.HasPrefix(p, "root/") && !strings.HasPrefix(p, "root/.goit/") {
+			os.Chtimes(filepath.Join(sb.Dir, p), old, old)
+		}
+	}
+}
+
+const worktreeMtime = 1000000000
+
 // Exec = materialise s, run, capture.
 func (sb *Sandbox) Exec(s *State, bin string, extraEnv []string, args ...string) (*Result, *State, error) {
 	if err := sb.Materialise(s); err != nil {
 		return nil, nil, err
 	}
 	sb.last = nil
+	sb.ageWorktree(s)
 	r := sb.Run(bin, extraEnv, args...)
 	post, err := sb.Capture()
 	if err != nil {
